@@ -276,10 +276,22 @@ def check_wrapper(ctx):
                 ctx.check(R, h, "wrapper: handler re-raises", A.always_raises(h.body), "handler swallows the failure", key="handler")
     ctx.floor(R, n, 1)
     rets = [s for s in A.walk_local(ut) if isinstance(s, ast.Return)]
-    ctx.check(R, ut, "wrapper returns the wrapped call's result", bool(rets) and all(canon(s.value) == "func_return" for s in rets), "returns %s" % [A.unparse(s.value) for s in rets if s.value is not None], key="ret", nontrivial=False)
+    ctx.check(R, ut, "wrapper returns the wrapped call's result", bool(rets) and _wrapper_returns_call(ut), "returns %s" % [A.unparse(s.value) for s in rets if s.value is not None], key="ret", nontrivial=False)
     fn = ctx.prog.func(_rej.MP, "iterative_rejection_helper", R)
     decs = [canon(d) for d in fn.decorator_list]
     ctx.check(R, fn, "iterative_rejection_helper is wrapped by tempfile_decorator only", decs == ["tempfile_decorator"], "decorators: %s" % decs, key="deco", nontrivial=False)
+
+
+def _wrapper_returns_call(ut):
+    """every return of the wrapper hands back the value of a `func(*args, **kwargs)` call made in the wrapper"""
+    fl = A.Flow(ut)
+    if not fl.returns:
+        return False
+    for v, s in fl.returns:
+        for leaf in A.strip_ifexp(v):
+            if not (isinstance(leaf, ast.Call) and canon(leaf.func) == "func"):
+                return False
+    return True
 
 
 def run(ctx):
